@@ -106,3 +106,45 @@ def canon(faces, oriented=True):
         else:
             out.append(tuple(sorted(f)))
     return out
+
+
+# ---------------------------------------------------------------- tables read from symbolic summaries (msa/rules/ha_sx.py)
+def _strip_conv(t):
+    while isinstance(t, ast.Call) and isinstance(t.func, ast.Name) and t.func.id in ("tuple", "list") and len(t.args) == 1 and not t.keywords:
+        t = t.args[0]
+    return t
+
+
+def face_of_term(item):
+    """(cell term key, local indices) when `item` is a face written over the vertices of one cell: a tuple / list display or a
+    `face_id(..)` call whose components are CELL[i] with literal i"""
+    item = _strip_conv(item)
+    if isinstance(item, (ast.Tuple, ast.List)):
+        comps = item.elts
+    elif isinstance(item, ast.Call) and au.call_tail(item) == "face_id" and len(item.args) >= 3 and not item.keywords:
+        comps = item.args
+    else:
+        return None
+    cell, idx = None, []
+    for c in comps:
+        if not (isinstance(c, ast.Subscript) and isinstance(au.const(c.slice), int) and not isinstance(au.const(c.slice), bool)):
+            return None
+        base = au.norm(_strip_conv(c.value))
+        if cell is None:
+            cell = base
+        elif cell != base:
+            return None
+        idx.append(au.const(c.slice))
+    return (cell, tuple(idx)) if cell is not None else None
+
+
+def tables_in_term(t):
+    """[(cell key, [faces as index tuples])] for every literal face table (>= 4 faces over one cell) inside term t"""
+    out = []
+    for n in ast.walk(t):
+        if isinstance(n, (ast.List, ast.Tuple)) and len(n.elts) >= 4:
+            faces = [face_of_term(e) for e in n.elts]
+            if None in faces or len({c for c, _ in faces}) != 1:
+                continue
+            out.append((faces[0][0], [f for _, f in faces]))
+    return out
